@@ -17,6 +17,7 @@ func init() {
 	vrt.Register("C15_positions", Positions)
 	vrt.Register("C15_input_ends_in_tag", InputEndsInTag)
 	vrt.Register("C15_first_line_of_multiline_tag", FirstLineOfMultilineTag)
+	vrt.Register("C15_two_faulty_tags", TwoFaultyTags)
 }
 
 func itoa(n int) string { return strconv.Itoa(n) }
@@ -249,5 +250,53 @@ func FirstLineOfMultilineTag() {
 	n, _ := lineOf(msg)
 	vrt.Assert(n >= 1, "the error starts with 'line N:'")
 	vrt.Assert(n == 1+newlines(pre), "a failing statement on the first line of a multi-line tag: N is that line")
+	vrt.Cover("done")
+}
+
+// ---- two syntactically faulty tags far apart: what is reported carries the line
+// of its tag and shifts exactly, also when the line numbers have different numbers of digits (1 and
+// 10, 9 and 99, 2 and 21 ...) and when the shift moves one of them across such
+// a boundary
+var syntaxFaults = []string{
+	"<%= if (1 { %>",
+	"<%= 1.2.3 %>",
+	"<% let = 3 %>",
+	"<%= [1, %>",
+	"<%= {\"a\" 1} %>",
+	"<%= \"a\" \"b\" ) %>",
+}
+
+func nl(n int) string { return strings.Repeat("\n", n) }
+
+func TwoFaultyTags() {
+	first := []int{1, 2, 9, 10}
+	gap := []int{1, 8, 9, 10, 19, 89, 90, 98}
+	a := first[vrt.Choice(len(first))]
+	g := gap[vrt.Choice(len(gap))]
+	ta := syntaxFaults[vrt.Choice(len(syntaxFaults))]
+	tb := syntaxFaults[vrt.Choice(2+4*vrt.Tier())]
+	tmpl := nl(a-1) + ta + "x" + nl(g) + tb
+	k := 1 + vrt.Choice(2)
+	e0 := render(tmpl)
+	ek := render(nl(k) + tmpl)
+	vrt.Assert(e0 != nil, "a faulty template is an error")
+	vrt.Assert(ek != nil, "a faulty template is an error after shifting")
+	m0 := strings.Split(e0.Error(), "\n")
+	mk := strings.Split(ek.Error(), "\n")
+	// (how many of the problems are reported is not prescribed; what is reported carries the line of its tag)
+	for _, m := range m0 {
+		n, _ := lineOf(m)
+		vrt.Assert(n >= 1, "every message of a faulty template starts with 'line N:'")
+		vrt.Assert(n == a || n == a+g, "N is the line of one of the faulty tags")
+	}
+	vrt.Assert(len(m0) == len(mk), "shifting changes nothing but the line numbers")
+	for i := 0; i < len(m0); i++ {
+		if i < len(mk) {
+			n0, r0 := lineOf(m0[i])
+			nk, rk := lineOf(mk[i])
+			vrt.Assert(nk == n0+k, "inserting k newlines increases N by exactly k")
+			vrt.Assert(r0 == rk, "shifting changes nothing else in the error")
+		}
+	}
 	vrt.Cover("done")
 }
